@@ -43,6 +43,13 @@ Theorem C16_match_spec : forall pat path,
 Proof. exact C16_match_spec_proof. Qed.
 Print Assumptions C16_match_spec.
 
+(* ... and the documented rule itself, as inference rules over (pieces, segments, values):
+      [spec] computes exactly the relation [matches] of Model/Router.v *)
+Theorem C16_spec_rules : forall ps segs vals,
+  wf_pieces ps = true -> (spec ps segs = Some vals <-> matches ps segs vals).
+Proof. exact C16_spec_rules_proof. Qed.
+Print Assumptions C16_spec_rules.
+
 (* 3. registerRoutes on a fresh router succeeds for routes of the documented grammar with
       supported methods, and getRoute then answers: the first route in registration order
       whose method is the request's and whose pattern matches by the documented rule, with
